@@ -207,6 +207,7 @@ Proof.
     assert (In cf fs) by (apply fulls_In; eauto). apply mem_false in M. contradiction.
   - intros r0 rs1 p ls0 E1 E2. destruct (RS _ _ E1) as (rs0 & Ers0 & L1 & Lo). rewrite Lo in E2.
     destruct ((r0 =? r) && (p =? l)); [discriminate|]. eapply (tO3 _ _ _ T); eauto.
+  - intros fP aP pfP EP. apply (tP _ _ _ T fP aP pfP EP).
 Qed.
 
 (* ---------- looking a local id up again in a sub-world ---------- *)
@@ -452,7 +453,7 @@ Proof.
     destruct Hok as (Hrs & Hu & Hp). cbn [step] in H. destruct (get_obj w f) as [o|] eqn:Eo.
     + eapply update_existing_Tree; [exact I|exact T| |exact H]. intros o' Eo'. rewrite Eo in Eo'. inversion Eo'; subst o'. cbn. tauto.
     + destruct (region_state w r) eqn:Ers; [|congruence].
-      eapply track_new_Tree; [exact I|exact T| | | | | | |exact H]; cbn; auto. congruence.
+      eapply track_new_Tree; [exact I|exact T| | | | | | | |exact H]; cbn; auto. congruence.
   - (* KillObject *)
     cbn [step] in H. destruct (get_rs w r); [|discriminate]. eapply kill_Tree; eauto.
 Qed.
@@ -470,6 +471,7 @@ Proof.
   - intros r rs c cf co p _ _ E. discriminate.
   - intros r rs p ls E1 E2. unfold init, get_rs in E1. cbn in E1.
     destruct (r =? 1); [inversion E1; subst; discriminate|]. destruct (r =? 2); [inversion E1; subst; discriminate|discriminate].
+  - intros f o pf E. discriminate.
 Qed.
 
 Lemma step_Inv : forall w e w', Inv w -> input_tree_ok w e -> step w e = Some w' -> Inv w'.
@@ -522,3 +524,30 @@ Proof.
   apply andb_prop in H. destruct H as [H1 H2]. split; [apply input_tree_okb_ok; exact H1|].
   destruct (step w e); [apply IH; exact H2|exact Logic.I].
 Qed.
+
+(* ---------- the Parent back-link, read off Idx and Tree ---------- *)
+(* obj.Parent is the tracked object that has local id obj.ParentID in obj's region, and None when ParentID is 0 or
+   no such object is tracked *)
+Lemma Tree_parent_link : forall w f o, Idx w -> Tree w -> get_obj w f = Some o ->
+  o_plink o = if o_parent o =? 0 then None
+              else match get_rs w (o_region o) with Some rs => aget (o_parent o) (r_local rs) | None => None end.
+Proof.
+  intros w f o I T Eo. pose proof I as (K & A & B). destruct (B _ _ Eo) as (rs & Ers & _ & Elx). rewrite Ers.
+  assert (FWD : forall pf, o_plink o = Some pf -> o_parent o <> 0 /\ aget (o_parent o) (r_local rs) = Some pf).
+  { intros pf Hp. destruct (proj1 (tP _ _ _ T f o pf Eo) Hp) as (po & Epo & Ic).
+    destruct (tC1 _ _ _ T _ _ _ _ Epo Ic) as (co & rs0 & A1 & A2 & A3 & [A4 A4'] & A5 & A6 & A7).
+    rewrite Eo in A1. inversion A1; subst co. unfold epar, no_ovr in A4. inversion A4 as [A4p].
+    rewrite <- A3, Ers in A5. inversion A5; subst rs0. rewrite A4p. auto. }
+  destruct (o_parent o =? 0) eqn:Q0.
+  - apply N.eqb_eq in Q0. destruct (o_plink o) as [pf|] eqn:Ep; [|reflexivity]. destruct (FWD pf eq_refl) as [H _]. contradiction.
+  - apply N.eqb_neq in Q0. destruct (aget (o_parent o) (r_local rs)) as [pf|] eqn:Epf.
+    + destruct (A _ _ _ _ Ers Epf) as (po & Epo & _).
+      apply (tP _ _ _ T f o pf Eo). exists po. split; [exact Epo|].
+      eapply (tC2 _ _ _ T _ _ _ _ o (o_parent o)); eauto; [|intro Hk; discriminate]. split; [reflexivity|exact Q0].
+    + destruct (o_plink o) as [pf|] eqn:Ep; [|reflexivity]. destruct (FWD pf eq_refl) as [_ H]. congruence.
+Qed.
+
+(* ... equivalently: it names exactly the object whose children list holds this object *)
+Lemma Tree_parent_children : forall w f o pf, Tree w -> get_obj w f = Some o ->
+  (o_plink o = Some pf <-> exists po, get_obj w pf = Some po /\ In (o_lid o, f) (o_children po)).
+Proof. intros w f o pf T Eo. exact (tP _ _ _ T f o pf Eo). Qed.
